@@ -10,6 +10,7 @@ mod modtext;
 mod offsets;
 mod visit;
 mod decode;
+mod features;
 mod dwarf;
 mod gen;
 mod opsx;
@@ -57,6 +58,7 @@ fn main() {
         "dwarf" => dwarf::main(seed, &tier, only.as_deref()),
         "module" => modsuite::main(seed, &tier, only.as_deref()),
         "maps" => maps::main(seed, &tier, only.as_deref()),
+        "features" => features::main(seed, &tier, only.as_deref()),
         "opsxtest" => {
             let u = opsx::universe(1);
             println!("supported plain ops {} typed {} unsupported {} cases {} untypable {:?}", u.supported_plain, u.typed, u.unsupported, u.cases.len(), u.untypable);
